@@ -508,6 +508,8 @@ struct MemoEntry {
     rep: Vec<u64>,
     res: Res,
     witnesses: Vec<(Vec<u64>, [Probe; 2])>,
+    /// the complete (unthinned) list of the node's direct children: edge words and outcome on continuation seed 1
+    level1: Vec<(Vec<u64>, Probe)>,
 }
 
 struct WitCollector {
@@ -515,6 +517,8 @@ struct WitCollector {
     items: Vec<(Vec<u64>, [Probe; 2])>,
     stride: u64,
     seen: u64,
+    level1: Vec<(Vec<u64>, Probe)>,
+    level1_overflow: bool,
 }
 
 #[derive(Clone, Debug)]
@@ -541,7 +545,7 @@ pub struct Explorer<'a> {
     /// number of leaf executions per bin (resolution of the tails)
     pub leaf_bins: Vec<u32>,
     /// witnesses of the most recently explored `More` node: (signature, prefix length, witnesses)
-    last_wit: Option<(u64, usize, Vec<(Vec<u64>, [Probe; 2])>)>,
+    last_wit: Option<(u64, usize, Vec<(Vec<u64>, [Probe; 2])>, Vec<(Vec<u64>, Probe)>)>,
 }
 
 #[derive(Clone, Debug)]
@@ -755,6 +759,28 @@ impl<'a> Explorer<'a> {
         Class::More { sig, tag, mid, probes }
     }
 
+    /// record a direct child of the node currently being expanded (complete list, used to confirm memo merges)
+    fn note_child(&mut self, p: &[u64], node_len: usize) {
+        if let Some(c) = self.collectors.last_mut() {
+            if c.base == node_len && !c.level1_overflow {
+                if c.level1.len() >= 40_000 {
+                    c.level1_overflow = true;
+                    c.level1.clear();
+                    return;
+                }
+            } else {
+                return;
+            }
+        } else {
+            return;
+        }
+        let e = self.exec(p, 1, false);
+        let pr = Self::probe_of(&e, p.len());
+        if let Some(c) = self.collectors.last_mut() {
+            c.level1.push((p[node_len..].to_vec(), pr));
+        }
+    }
+
     fn offer_witness(&mut self, script: &[u64], e0: &Exec) {
         if self.collectors.is_empty() {
             return;
@@ -803,7 +829,7 @@ impl<'a> Explorer<'a> {
             return r;
         }
         path.push(PathNode { len: p.len(), probes, bscripts: vec![] });
-        self.collectors.push(WitCollector { base: p.len(), items: vec![], stride: 1, seen: 0 });
+        self.collectors.push(WitCollector { base: p.len(), items: vec![], stride: 1, seen: 0, level1: vec![], level1_overflow: false });
         self.cnt.nodes += 1;
         let execs_before = self.cnt.execs;
 
@@ -812,11 +838,14 @@ impl<'a> Explorer<'a> {
         let col = self.collectors.pop().unwrap();
         path.pop();
         self.close_loops(&mut res, p.len() as u32);
+        let level1 = col.level1;
+        let col_l1_overflow = col.level1_overflow;
         let mut wit = col.items;
         // store subtrees that were expensive to explore (cheap ones are re-explored; the memo stays small)
         let cost = self.cnt.execs - execs_before;
         let ext_ok = res.ups.iter().all(|u| (u.0 as usize) < p.len());
-        if ext_ok && cost >= 3000 && self.memo_entries < 2048 {
+        let level1_ok = !col_l1_overflow && !level1.is_empty();
+        if ext_ok && cost >= 3000 && self.memo_entries < 2048 && level1_ok {
             // second probe of each witness on another continuation seed
             for w in wit.iter_mut() {
                 let mut s = p.clone();
@@ -825,15 +854,16 @@ impl<'a> Explorer<'a> {
                 w.1[1] = Self::probe_of(&e, s.len());
             }
             self.memo_entries += 1;
-            self.memo.entry(sig).or_default().push(MemoEntry { rep: p.clone(), res: res.clone(), witnesses: wit.clone() });
+            self.memo.entry(sig).or_default().push(MemoEntry { rep: p.clone(), res: res.clone(), witnesses: wit.clone(), level1: level1.clone() });
         }
-        self.last_wit = Some((sig, p.len(), wit));
+        self.last_wit = Some((sig, p.len(), wit, level1));
         res
     }
 
     fn memo_lookup(&mut self, sig: u64, p: &[u64], path: &[PathNode]) -> Option<Res> {
         let n = self.memo.get(&sig).map(|v| v.len()).unwrap_or(0);
-        for ei in 0..n {
+        // only the two most recent entries are tried (each trial replays the entry's complete first level)
+        for ei in (n.saturating_sub(2)..n).rev() {
             // external back-edges must point to shared ancestors
             let (ok_anc, wit): (bool, Vec<(Vec<u64>, [Probe; 2])>) = {
                 let e = &self.memo[&sig][ei];
@@ -848,6 +878,18 @@ impl<'a> Explorer<'a> {
             }
             let mut good = !wit.is_empty();
             let mut s = p.to_vec();
+            // every direct child of the stored node must behave identically below the candidate (complete list:
+            // nodes that differ only slightly - thresholds moving with a value-producing prefix word - are not merged)
+            let l1: Vec<(Vec<u64>, Probe)> = self.memo[&sig][ei].level1.clone();
+            for (suf, pr) in &l1 {
+                s.truncate(p.len());
+                s.extend_from_slice(suf);
+                let e1 = self.exec(&s, 1, false);
+                if Self::probe_of(&e1, s.len()) != *pr {
+                    good = false;
+                    break;
+                }
+            }
             for (suf, pr) in &wit {
                 s.truncate(p.len());
                 s.extend_from_slice(suf);
@@ -864,7 +906,7 @@ impl<'a> Explorer<'a> {
             }
             if good {
                 self.cnt.memo_hits += 1;
-                self.last_wit = Some((sig, p.len(), wit));
+                self.last_wit = Some((sig, p.len(), wit, l1));
                 return Some(self.memo[&sig][ei].res.clone());
             } else {
                 self.cnt.memo_rejects += 1;
@@ -935,6 +977,7 @@ impl<'a> Explorer<'a> {
                     let mut turn = Turn::default();
                     for a in alpha.iter() {
                         p.extend_from_slice(&a.words);
+                        self.note_child(p, node_len);
                         let cls = self.classify(p, path);
                         match &cls {
                             Class::Leaf { v, bad: false, .. } => turn.leaf(*v, a.mass + a.eps, &mut acc, self.grid),
@@ -1220,8 +1263,16 @@ impl<'a> Explorer<'a> {
             let w = Self::word53(repj);
             // full classification at the representative and at both ends of the run
             p.push(w);
+            self.note_child(p, node_len);
             let cls_rep = self.classify(p, path);
             p.pop();
+            for &q in &[start, end - 1] {
+                if q != repj {
+                    p.push(Self::word53(q));
+                    self.note_child(p, node_len);
+                    p.pop();
+                }
+            }
             let sig_rep = cls_rep.id();
             let mut ends_ok = true;
             for &q in &[start, end - 1] {
@@ -1247,8 +1298,8 @@ impl<'a> Explorer<'a> {
                 self.last_wit = None;
                 let r = self.child_res(p, path, cls_rep, node_len, vdepth);
                 p.pop();
-                let wit = self.last_wit.take().filter(|w| w.1 == node_len + 1).map(|w| w.2).unwrap_or_default();
-                let mut all_ok = !wit.is_empty();
+                let (wit, lev1) = self.last_wit.take().filter(|w| w.1 == node_len + 1).map(|w| (w.2, w.3)).unwrap_or_default();
+                let mut all_ok = !wit.is_empty() && !lev1.is_empty();
                 if n > 1 && all_ok {
                     for &q in &[start, end - 1, start + n / 4, start + 3 * (n / 4)] {
                         if q == repj {
@@ -1261,7 +1312,19 @@ impl<'a> Explorer<'a> {
                         let mut sc = p.clone();
                         let mut rc = p.clone();
                         *rc.last_mut().unwrap() = w;
+                        for (suf, pr) in &lev1 {
+                            sc.truncate(base);
+                            sc.extend_from_slice(suf);
+                            let e1 = self.exec(&sc, 1, false);
+                            if Self::probe_of(&e1, sc.len()) != *pr {
+                                ok = false;
+                                break;
+                            }
+                        }
                         for (suf, pr) in &wit {
+                            if !ok {
+                                break;
+                            }
                             sc.truncate(base);
                             sc.extend_from_slice(suf);
                             let e1 = self.exec(&sc, 1, false);
@@ -1350,6 +1413,7 @@ impl<'a> Explorer<'a> {
             let m = lo + (hi_ - lo) / 2;
             let wv = topfill | m;
             p.push(wv);
+            self.note_child(p, node_len);
             let cls = self.classify(p, path);
             let r = self.child_res(p, path, cls, node_len, vdepth + 1);
             p.pop();
@@ -1420,6 +1484,7 @@ impl<'a> Explorer<'a> {
             let j = lo + (hi - lo) / 2;
             let wv = Self::word53(j);
             p.push(wv);
+            self.note_child(p, node_len);
             let cls = self.classify(p, path);
             let kind = match &cls {
                 Class::Leaf { v, .. } => {
